@@ -49,6 +49,11 @@ def expand(c, seed):
     return cfg
 
 
+def invalid_geometry(cfg):
+    """conical panel whose radius r_bot - a sin(alpha) does not stay well positive along the meridian"""
+    return cfg['model'] == 'kpanel' and cfg['r'] - cfg['a'] * np.sin(np.deg2rad(abs(cfg['alphadeg']))) < 0.25 * cfg['r']
+
+
 def cases(tier, seed):
     k = 2 if tier == 'quick' else 3
     pts = pan.lattice(COORDS, k)
@@ -90,6 +95,8 @@ def k0_of(cfg):
 
 def check_case(case):
     cfg = expand(full_point(case['lp']), case['seed'])
+    if invalid_geometry(cfg):
+        return dict(fails=[], execs=0, nontrivial=0, skipped_invalid_geometry=1)
     if cfg['model'] == 'plate_w' and False:
         return []
     fails = []
@@ -134,8 +141,11 @@ def check_case(case):
             d = np.sqrt(np.abs(np.diag(Kl)))
             d[d == 0] = 1.0
             w = np.linalg.eigvalsh(Kl / np.outer(d, d)) if Kl.size else np.zeros(1)
-            if w.min() < -1e-8:
-                fails.append(fail('k0 not positive semi-definite', sig=None, cfg=cfg, min_eig_scaled=float(w.min())))
+            # eigenvalue perturbation allowed by the entry-wise tolerance (conditioning of sub-interval / section integrals)
+            Sl = S_g[r0:r0 + nloc, c0:c0 + nloc][np.ix_(act, act)]
+            psd_tol = 1e-8 + (np.linalg.norm(RTOL * Sl / np.outer(d, d)) if Kl.size else 0.0)
+            if w.min() < -psd_tol:
+                fails.append(fail('k0 not positive semi-definite', sig=None, cfg=cfg, min_eig_scaled=float(w.min()), allowed=float(psd_tol)))
     trans = 0
     # edge: pre-load contribution equals the package's own constant-load geometric matrix
     if cfg['preload'] and cfg['finalize']:
